@@ -101,6 +101,9 @@ func elemCheck(c *Ctx, cs *elemCase, which string) string {
 		if cs.AltRoot && i == 0 {
 			// same locations, different content: every title of the root is changed
 			alt := strings.ReplaceAll(string(cs.Docs[cs.Root]), `"title":"T`, `"title":"ALT`)
+			if cs.Feat["family"] == "ids" {
+				alt = strings.ReplaceAll(string(cs.Docs[cs.Root]), `"title":"`, `"title":"ALT-`)
+			}
 			ecs.Docs = map[string]json.RawMessage{}
 			for k, v := range cs.Docs {
 				ecs.Docs[k] = v
@@ -643,6 +646,13 @@ func c18Run(c *Ctx) {
 					cl := call{Fn: "ExpandSchemaWithBasePath", Elem: e}
 					run(&elemCase{expCase: expCase{built: *sc}, Calls: []call{cl}, CacheKind: kind, Preload: pre, Differential: true})
 					run(&elemCase{expCase: expCase{built: *sc}, Calls: []call{cl, cl}, CacheKind: kind, Preload: pre, Differential: true})
+					if sc.Feat["where"] == "root" && pre == nil {
+						// an in-memory root with an id, after another in-memory root with the same id went through the same cache
+						for _, rm := range []string{"typed", "generic"} {
+							cl2 := call{Fn: "ExpandSchema", Elem: e, Root: rm}
+							run(&elemCase{expCase: expCase{built: *sc}, Calls: []call{cl2, cl2}, CacheKind: kind, AltRoot: true, Differential: true})
+						}
+					}
 				}
 			}
 		}
